@@ -45,6 +45,12 @@ class Builder:
             self.spc = r.choice([1, 2]); self.clusters = r.range(4085, 4600)
         else:
             self.spc = 1; self.clusters = r.range(65525, 66500)
+        # volumes at the upper end of their FAT width: the highest cluster numbers (FAT12 0xFF0..0xFF5, FAT16 0xFFF0..0xFFF5) are
+        # ordinary clusters there, although the same bit patterns are "reserved values" in tables of smaller volumes
+        self.maxfat = self.bits in (12, 16) and r.chance(1, 4)
+        if self.maxfat:
+            self.spc = 1
+            self.clusters = (4084 if self.bits == 12 else 65524) - r.below(4)
         self.fats = r.choice([1, 2, 2, 3])
         self.reserved = r.range(1, 5) if self.bits != 32 else r.choice([8, 16, 32])
         self.root_entries = 0 if self.bits == 32 else r.choice([1, 2, 4, 16]) * (self.bps // 32)
@@ -63,6 +69,15 @@ class Builder:
         self.img = {}                # offset -> byte (sparse)
         self.free = list(range(2, self.clusters + 2))
         r.shuffle(self.free)          # fragmented, out-of-order allocation
+        if self.maxfat:
+            # the top clusters are handed out early, alternating with others, so that chains run THROUGH them
+            tops = list(range(self.clusters + 2 - 8, self.clusters + 2))
+            rest = [c for c in self.free if c not in tops]
+            r.shuffle(tops)
+            tail = []
+            for t in tops:
+                tail += [t, rest.pop()]
+            self.free = rest + tail[::-1]
         self.fat = {}                 # cluster -> raw value
 
     def put(self, off, data):
@@ -151,7 +166,7 @@ class Builder:
         fill(self.root, 0)
         # nearly full volumes (FAT12 only: small enough): one filler file takes all but a few of the remaining clusters, so
         # that a later allocation scan runs to the very end of the table (spare entries after the last cluster are zero here)
-        self.nearfull = self.bits == 12 and r.chance(1, 3)
+        self.nearfull = self.bits == 12 and not self.maxfat and r.chance(1, 3)
         if self.nearfull:
             keep = r.range(0, 3)
             dirs_need = 12
